@@ -1,3 +1,4 @@
+import Dcg.Gen.Formats
 /-
 Dcg.Model.Bounds — two small pieces of `parser/jsonschema.py` that decide whether equivalent
 spellings of a schema reach the rest of the generator as the same thing.
@@ -73,5 +74,9 @@ def pickContainer {β : Type} (containers : List (String × List β)) : List Str
   | p :: ps => match containers.lookup p with
     | some (e :: es) => e :: es
     | _ => pickContainer containers ps
+
+/-- the root keys the JSON-Schema walk looks at, in order, from the generated `schema_paths` table -/
+def containerKeys : List String :=
+  Dcg.Gen.Formats.jsonSchemaPathsSplit.filterMap (fun p => match p with | [k] => some k | _ => none)
 
 end Dcg.Model.Bounds
